@@ -391,7 +391,11 @@ Definition forward_op (n : node) (x' : data) : result :=
 (* Node.train, after check_xy (n already carries the teacher that check_xy registered: _base.train prefers node._teacher
    over the Y array).  Since f5028fe everything after check_xy is inside  try: ... finally: self._unregister_teacher() :
    whatever the outcome, no teacher is left on the node. *)
-Definition train_op (n : node) (x' : data) (y' : ycheck) : result :=
+(* Node.train computes y_init only `if hasattr(Y, "__iter__")` on the RAW target: a Python number passes check_xy
+   (it becomes a (1, 1) array) but is not used to infer the output dimension *)
+Definition y_iterable (y : option data) : bool := match y with Some DNum => false | _ => true end.
+
+Definition train_op (n : node) (x' : data) (y' : ycheck) (yiter : bool) : result :=
   match seq2 x' with
   | None => Irregular
   | Some (t, f) =>
@@ -402,7 +406,7 @@ Definition train_op (n : node) (x' : data) (y' : ycheck) : result :=
           match ydata with
           | Some (ty, m) =>
               if negb (t =? ty) then Irregular
-              else match (if initialized n then ROk n else initialize n [f] (Some m)) with
+              else match (if initialized n then ROk n else initialize n [f] (if yiter then Some m else None)) with
                    | RErr e => Err PInit e (set_teacher n None)
                    | ROk n1 =>
                        if (match input_dim n1 with Some d => lnat_eqb d [f] | None => false end)
@@ -417,7 +421,7 @@ Definition train_op (n : node) (x' : data) (y' : ycheck) : result :=
           | YData _, None => Irregular
           | _, _ =>
               (* _init_vectors_placeholders: y from the data if given, else output_dim, else the teacher's output_dim *)
-              let yf := match ydata with Some (_, m) => Some m | None => td end in
+              let yf := match ydata with Some (_, m) => if yiter then Some m else td | None => td end in
               match (if initialized n then ROk n else initialize n [f] yf) with
               | RErr e => Err PInit e (set_teacher n None)
               | ROk n1 =>
@@ -489,7 +493,7 @@ Definition step (n : node) (o : op) : result :=
         match check_xy n x y false false true with
         | RErr e => Err PCheck e n
         | ROk (x', y') =>
-            train_op (match y' with YTeacher td => set_teacher n (Some td) | _ => n end) x' y'
+            train_op (match y' with YTeacher td => set_teacher n (Some td) | _ => n end) x' y' (y_iterable y)
         end
     | OPartialFit x y =>
         match check_xy n x (if unsup then None else y) true false true with
